@@ -19,7 +19,7 @@
 (*              include/BasicTypes.hpp:1118-1140, src/NifFile.cpp:726-757) *)
 (*  XAllowed  : what the properties (C04, C06, C15) demand of the step     *)
 (***************************************************************************)
-EXTENDS Integers, Sequences, FiniteSets, SequencesExt
+EXTENDS Integers, Sequences, FiniteSets, SequencesExt, TLC
 
 NPOS == -1
 N(s) == Len(s.blocks)
@@ -329,4 +329,54 @@ FileViol(t, f) ==
          \cup V(\A k \in 1..N(t) : f.blocks[k].cid = t.blocks[k].cid /\ f.blocks[k].size = t.blocks[k].size, "FileContent")
          \cup V(\A k \in 1..N(t) : f.blocks[k].wrefs = t.blocks[k].wrefs, "FileReferences")
          \cup V(FileWalks(f), "FileWellFormed")
+
+(* ---------------- NifFile-level edits: composite operations on nodes and shapes ---------------- *)
+\* These calls are sequences of the header operations above plus reference updates on the blocks they name.  The relation
+\* says what may change: the named blocks gain / lose exactly the named references, the named sub-graph vanishes, every
+\* other reference keeps designating its block (as bags: these calls may drop emptied entries), the header mirrors the blocks.
+AddBag(B, x) == IF x \in DOMAIN B THEN [B EXCEPT ![x] = @ + 1] ELSE B @@ (x :> 1)
+BagsStableExcept(s, W, t, X) ==
+    \A k \in 1..N(s) : (W[k] > 0 /\ k \notin X) =>
+        /\ BagStable(s, W, t, s.blocks[k].refs, t.blocks[W[k]].refs)
+        /\ BagStable(s, W, t, s.blocks[k].ptrs, t.blocks[W[k]].ptrs)
+RefBagOf(s, W, k) == Bag(LiveImage(s, W, s.blocks[k].refs))          \* where the live references of old block k point now
+RefBagNow(t, k2) == Bag(LiveNow(t, t.blocks[k2].refs))
+\* first node (1-based) that lists block c (0-based) among its children (NifFile::GetParentNode); 0 if none.
+\* children of a node are its references from the third on (the layout of the projection: controller, collision, children...)
+ParentOf(s, c) == LET P == {k \in 1..N(s) : IsNode(s.blocks[k]) /\ RefersTo(s.blocks[k], c, FALSE)}
+                  IN  IF P = {} THEN 0 ELSE CHOOSE k \in P : \A j \in P : k <= j
+ModelOpViol(s, a, W, t) ==
+    LET c == CommonViol(s, W, t) IN
+    IF c # {} THEN c
+    ELSE CASE a.op = "AddNode" ->
+                LET P == IF a.parent = NPOS THEN RootIndex(s) + 1 ELSE a.parent + 1
+                    F == Fresh(W, t)
+                IN  V(Vanished(W) = {} /\ Cardinality(F) = 1 /\ \A f \in F : IsNode(t.blocks[f]), "OneNodeAdded")
+                    \cup V(BagsStableExcept(s, W, t, {P}), "OtherReferencesStable")
+                    \cup V(P = 0 \/ Cardinality(F) # 1 \/ HasDangling(s, s.blocks[P].refs)
+                           \/ RefBagNow(t, W[P]) = AddBag(RefBagOf(s, W, P), CHOOSE f \in F : TRUE), "ParentGainsExactlyTheNode")
+           [] a.op = "SetParent" ->
+                \* no-op when the block is its own new parent; the block leaves every node that listed it and joins the new one
+                LET ch == a.c
+                    P  == IF a.p = NPOS THEN RootIndex(s) + 1 ELSE a.p + 1
+                    Old == {k \in 1..N(s) : IsNode(s.blocks[k]) /\ RefersTo(s.blocks[k], ch, FALSE)}
+                IN  V(Vanished(W) = {} /\ Fresh(W, t) = {}, "NoBlockAddedOrDeleted")
+                    \cup V(BagsStableExcept(s, W, t, Old \cup {P}), "OtherReferencesStable")
+                    \cup V(P = 0 \/ ch + 1 = P \/ Old = {} \/ RefersTo(t.blocks[W[P]], W[ch + 1] - 1, FALSE), "NewParentListsTheBlock")
+           [] a.op \in {"DeleteShape", "DeleteNode", "DeleteShader", "DeleteSkinning"} ->
+                LET x == a.i + 1 IN
+                V(Fresh(W, t) = {}, "NoNewBlock")
+                \cup V(a.op \notin {"DeleteShape", "DeleteNode"} \/ ~InRange(s, a.i) \/ x \in Vanished(W), "TheNamedBlockIsDeleted")
+                \cup V(a.op \in {"DeleteShape", "DeleteNode"} \/ W[x] > 0, "TheShapeItselfStays")
+                \* only blocks of the named block's own sub-graph vanish
+                \cup V(~InRange(s, a.i) \/ Vanished(W) \subseteq Reach(s, {x}), "OnlyItsOwnSubGraphVanishes")
+                \cup V(BagsStableExcept(s, W, t, {}), "OtherReferencesStable")
+           [] a.op = "AssignExtra" ->
+                LET P == a.i + 1
+                    F == Fresh(W, t)
+                IN  V(Vanished(W) = {} /\ Cardinality(F) = 1, "OneBlockAdded")
+                    \cup V(BagsStableExcept(s, W, t, {P}), "OtherReferencesStable")
+                    \cup V(Cardinality(F) # 1 \/ HasDangling(s, s.blocks[P].refs)
+                           \/ RefBagNow(t, W[P]) = AddBag(RefBagOf(s, W, P), CHOOSE f \in F : TRUE), "TargetGainsExactlyTheBlock")
+           [] OTHER -> {"UnknownOp"}
 =============================================================================
